@@ -182,6 +182,11 @@ def check_op(built, f, op, tier, timeout=120, cfg="default"):
         if R.eval(ae) != limbs_int(T.evaluate(out, env)):
             raise MachineryError("integer encoder value mismatch for %s" % drv)
         samples.append(ae)
+    try:
+        enc.validate_on(samples[0], extra)
+        enc.validate_on(samples[-1], extra)
+    except AssertionError as e:
+        raise MachineryError("encoder validation failed for %s: %s" % (drv, e))
     # the congruence to prove, as (lhs, rhs): lhs == rhs mod q
     RR = f.R
     mont = f.kind != "raw"
